@@ -11,16 +11,35 @@ ASSUME_GENERIC = [
 ]
 
 def c01(tier, dev):
-    return run_cs_property("C01", tier, [Campaign("C01", "plain"), Campaign("C01", "plain-noslack", cases=(100000 if tier == "quick" else 1000000))],
+    return run_cs_property("C01", tier, [Campaign("C01", "plain"), Campaign("C01", "plain-noslack", cases=(100000 if tier == "quick" else 1000000))] + foreign_campaigns("C01", tier),
                            assumptions=ASSUME_GENERIC, dev=dev)
 
 def c02(tier, dev):
-    return run_cs_property("C02", tier, [Campaign("C02", "plain")], assumptions=ASSUME_GENERIC, dev=dev)
+    return run_cs_property("C02", tier, [Campaign("C02", "plain")] + foreign_campaigns("C02", tier), assumptions=ASSUME_GENERIC, dev=dev)
+
+# rows of other families are served by the dedicated modules of C14/C15 (tokenizer, conversions) and by the FMT
+# harness: their violations of *this* property's statement are selected by key and re-labelled
+FOREIGN = {
+    "C01": [("C15", r":store-|:wild-access"), ("C14", r":write-at-dmax|:wrote-outside-objects")],
+    "C02": [("C15", r":load-"), ("C14", r":read-at-dmax|:read-via-unset-ptr")],
+    "C03": [("C15", r":not-terminated")],
+    "C04": [("C15", r":not-cleared")],
+    "C06": [("C15", r":no-space-accepted|:wrong-characters|:wrong-count")],
+}
+
+def foreign_campaigns(prop, tier):
+    out = []
+    for mod, rx in FOREIGN.get(prop, []):
+        out.append(Campaign(mod, "plain", cases=(1500000 if tier == "quick" else 15000000), keymap=(rx, prop)))
+    return out
 
 def two_builds(prop):
     def f(tier, dev):
         n2 = 500000 if tier == "quick" else 5000000
-        return run_cs_property(prop, tier, [Campaign(prop, "plain"), Campaign(prop, "plain-noslack", cases=n2)], assumptions=ASSUME_GENERIC, dev=dev)
+        camps = [Campaign(prop, "plain"), Campaign(prop, "plain-noslack", cases=n2)]
+        if prop in FOREIGN:
+            camps += foreign_campaigns(prop, tier)
+        return run_cs_property(prop, tier, camps, assumptions=ASSUME_GENERIC, dev=dev)
     return f
 
 PROPS = {"C01": c01, "C02": c02, "C03": two_builds("C03"), "C04": two_builds("C04"), "C08": two_builds("C08"),
@@ -33,6 +52,7 @@ PROPS = {"C01": c01, "C02": c02, "C03": two_builds("C03"), "C04": two_builds("C0
          "C15": two_builds("C15"),
          "C16": lambda tier, dev: run_cs_property("C16", tier, [Campaign("C16", "plain")], assumptions=ASSUME_GENERIC[:2] + ["comparators are consistent total preorders"], dev=dev),
          "C20": lambda tier, dev: run_cs_property("C20", tier, [Campaign("C20", "plain")], level="fault_enumeration", assumptions=ASSUME_GENERIC[:2] + ["allocation requests of the statically linked library are intercepted with -Wl,--wrap=malloc,calloc,realloc,free; allocations made inside libc on the library's behalf are not"], dev=dev),
+         "C13": lambda tier, dev: run_cs_property("C13", tier, [Campaign("C13", "plain")], assumptions=ASSUME_GENERIC[:2] + ["the harness owns the schedule: real pthreads execute one operation at a time, so the interleaving is the generated sequence", "the default handler is observed through -Wl,--wrap=ignore_handler_s"], dev=dev),
          "C05": lambda tier, dev: run_cs_property("C05", tier, [Campaign("C05", "plain")], assumptions=ASSUME_GENERIC, dev=dev)}
 
 def external(prop, script):
